@@ -202,7 +202,15 @@ def group_laws(seed, n_per, kinds=('R2', 'R3', 'SE2', 'SE3')):
                     other = PoseSE2(d[:2], d[2])
                 else:
                     other = make_pose(k, d)
-                chk(k, 'boxplus_def', np.allclose((A + np.array(d)).to_array(), (A + other).to_array(), rtol=0, atol=1e-12 * sc), dict(data, d=d))
+                got = (A + np.array(d)).to_array()
+                okb = np.allclose(got, (A + other).to_array(), rtol=0, atol=1e-12 * sc)
+                if not okb and k == 'SE3' and abs(rn - 1.0) < 1e-12:
+                    # |d_rot| = 1 to within rounding: whether the code's `norm > 1.0` test fires is decided by the last bit of
+                    # np.linalg.norm; both branches are the documented behaviour of one side of the boundary
+                    # (and on the inner side w = sqrt(1 - |d|^2) amplifies a last-bit difference in |d|^2 to ~1e-8)
+                    okb = any(np.allclose(got, (A + alt).to_array(), rtol=0, atol=1e-6 * sc)
+                              for alt in (PoseSE3(d[:3], [0, 0, 0, 1.0]), PoseSE3(d[:3], list(d[3:]) + [0.0])))
+                chk(k, 'boxplus_def', okb, dict(data, d=d))
             except Exception as ex:  # noqa
                 chk(k, 'raised %r' % (ex,), False, data)
     return evals, fails
